@@ -122,7 +122,7 @@ STR_CUTS = {
     ADV["simple"]: (1, "R2: the slice operands are the stored offsets, produced by char_indices of the text"),
     ADV["whitespace"]: (1, "R2: same"),
     ADV["ngram"]: (1, "R2: operands are code point frontiers yielded by CodepointFrontiers over the same text"),
-    "<tantivy::tokenizer::ngram_tokenizer::CodepointFrontiers<'_> as core::iter::traits::iterator::Iterator>::next::{closure#0}":
+    "<tantivy::tokenizer::ngram_tokenizer::CodepointFrontiers<'_> as core::iter::traits::iterator::Iterator>::next":
         (1, "`&self.s[offset..]` where offset is the running sum of char lengths decoded from the front of s"),
     REGEX_ADV: (1, "R5: `&self.text[m.end()..]`, the end of a regex Match on that text"),
     "<tantivy::tokenizer::facet_tokenizer::FacetTokenStream<'_> as tantivy_tokenizer_api::TokenStream>::advance":
@@ -149,21 +149,23 @@ def r8(rep, prog):
         for bi, t in b.calls():
             f = t.get("res") or t.get("f") or ""
             if f in CUTS:
-                found.setdefault(b.id, []).append((bi, f))
+                # sites are keyed by the function they are written in: a cut inside a closure of `next` and the same cut
+                # written straight into `next` are the same site
+                found.setdefault(b.raw.get("root") or b.id, []).append((bi, f, b))
     rep.floor(R, "tokenizer bodies scanned", nbodies, 150)
     for fid, (n, why) in sorted(STR_CUTS.items()):
         got = len(found.get(fid, []))
         b = prog.body(fid)
         rep.check(got <= n and b is not None, R, "byte-index cuts in %s" % short(fid), "%d site(s): %s" % (got, why),
                   ("`%s` cuts text at a byte index at %d sites, %d were triaged (%s): the new cut has no argument that its index is a character boundary inside the text" % (fid, got, n, why)) if b is not None else "cannot establish: body `%s` not found" % fid,
-                  site=site(b, found[fid][-1][0]) if b is not None and found.get(fid) else (b.span if b is not None else None))
+                  site=site(found[fid][-1][2], found[fid][-1][0]) if b is not None and found.get(fid) else (b.span if b is not None else None))
     for fid, ss in sorted(found.items()):
         if fid in STR_CUTS:
             continue
         b = prog.body(fid)
         rep.check(False, R, "byte-index cut in %s" % short(fid), "",
                   "`%s` cuts text at a byte index (%s) and is not a triaged site: nothing shows that the index is a character boundary inside the text; a tokenizer that panics or shortens its text breaks every caller (indexing, snippets)" % (fid, short(ss[0][1])),
-                  site=site(b, ss[0][0]))
+                  site=site(ss[0][2], ss[0][0]))
     rep.floor(R, "triaged byte-index cut sites present", sum(len(v) for k, v in found.items() if k in STR_CUTS), 8)
 
 
@@ -444,7 +446,7 @@ def r3(rep, prog):
         b = prog.body(fid)
         return b is not None and b.span.startswith("src/snippet/mod.rs")
     scope = prog.reachable_bodies(ents, scope=in_scope) | set(ents)
-    inv = panics.inventory(prog, scope)
+    inv = panics.fold_closures(panics.inventory(prog, scope))
     INV = "every highlighted range lies inside [start_offset, stop_offset) of its fragment and offsets come from tokens of the same text (C19-R2): "
     TABLE = {
         (SN + "search_fragments", "P4", "Overflow(Sub)"): (2, INV + "next.offset_to >= next.offset_from >= fragment.start_offset (token offsets_from are non-decreasing; a fragment starts at a token's offset_from); memory_budget arithmetic none"),
@@ -454,6 +456,7 @@ def r3(rep, prog):
         (SN + "SnippetGenerator::snippet", "P3", "index"): (1, "&fragment_candidates[..]: the full range never panics"),
         (SN + "merge_overlapping_ranges", "P1", "panic"): (1, "debug_assert!(is_sorted): the only caller, collapse_overlapped_ranges, sorts first (sort_and_deduplicate_ranges)"),
     }
+    TABLE = panics.fold_table(TABLE)
     for k, sites_ in sorted(inv.items()):
         fid, cls, kind = k
         key = "%s: %s %s" % (short(fid), cls, kind)
